@@ -226,8 +226,22 @@ struct StmtOracle
   std::string msg;               // fmtquill::format(twin, args...) at the call site
   std::vector<std::string> vals; // fmtquill::format("{:spec_i}", arg_i)
   bool enqueued{false};
+  bool rt_vetoed{false}; // the runtime-metadata form was asked for but falls into the known class F5 (see run_impl)
   std::string harness_error;
 };
+
+// LOG_RUNTIME_METADATA form of a statement: file, line and function travel as three more arguments behind separators and
+// the level is given at run time (set by the statement loop right before the call, cleared after it)
+struct RuntimeForm
+{
+  bool on{false};
+  quill::MacroMetadata const* md{nullptr};
+  quill::LogLevel level{quill::LogLevel::Info};
+};
+RuntimeForm g_rt;
+char const* const kRtFile = "rt_named.cpp";
+int const kRtLine = 4711;
+char const* const kRtFunc = "rt_fn";
 
 using LogFn = void (*)(quill::Logger*, quill::MacroMetadata const*, std::string const&,
                        std::vector<std::string> const&, std::vector<Val> const&, StmtOracle&);
@@ -250,8 +264,16 @@ template <class... Ts> struct Sig
       o.harness_error = std::string{"harness: call-site formatting threw: "} + e.what();
       return;
     }
-    o.enqueued = std::apply(
-      [&](auto&... a) { return lg->template log_statement<false, false>(quill::LogLevel::None, md, a...); }, args);
+    // known finding F5 (the backend splits the formatted text at the 3-byte separator): in the runtime-metadata form the
+    // split also hits a separator that only forms in the MESSAGE (adjacent values "\x01" "\x02\x03"); while F5 is excluded
+    // such a statement is logged in the ordinary form instead
+    if (g_rt.on && g_excl_f5 && o.msg.find("\x01\x02\x03") != std::string::npos) { g_rt.on = false; o.rt_vetoed = true; }
+    if (g_rt.on)
+      o.enqueued = std::apply(
+        [&](auto&... a) { return lg->template log_statement<false, true>(g_rt.level, g_rt.md, a..., kRtFile, kRtLine, kRtFunc); }, args);
+    else
+      o.enqueued = std::apply(
+        [&](auto&... a) { return lg->template log_statement<false, false>(quill::LogLevel::None, md, a...); }, args);
   }
   static void run(quill::Logger* lg, quill::MacroMetadata const* md, std::string const& twin,
                   std::vector<std::string> const& vfmt, std::vector<Val> const& vals, StmtOracle& o)
@@ -492,6 +514,8 @@ struct Slot
   char srcloc[160];
   char func[64];
   std::optional<quill::MacroMetadata> md;
+  char fmt_rt[4200];
+  std::optional<quill::MacroMetadata> md_rt; // the same template as LOG_RUNTIME_METADATA expands it
   // model
   bool used{false};
   unsigned sig{0};
@@ -645,6 +669,12 @@ void gen_template(Choices& c, Slot& s, Report& r, TplFeat& f)
 
   std::memcpy(s.fmt, s.tpl.c_str(), s.tpl.size() + 1);
   s.md.emplace(s.srcloc, s.func, s.fmt, nullptr, kLevels[s.level], quill::MacroMetadata::Event::Log);
+  {
+    std::string const rt = s.tpl + QUILL_MAGIC_SEPARATOR "{}" QUILL_MAGIC_SEPARATOR "{}" QUILL_MAGIC_SEPARATOR "{}";
+    std::memcpy(s.fmt_rt, rt.c_str(), rt.size() + 1);
+    s.md_rt.emplace("[placeholder]", "[placeholder]", s.fmt_rt, nullptr, quill::LogLevel::Dynamic,
+                    quill::MacroMetadata::Event::LogWithRuntimeMetadata);
+  }
   s.used = true;
 }
 
@@ -659,6 +689,7 @@ struct Expect
   uint64_t ts{0};
   int logger{0};
   quill::MacroMetadata const* md{nullptr}; // nullptr for LOGJ call sites (the macro owns it)
+  bool runtime{false}; // logged in the LOG_RUNTIME_METADATA form: the backend substitutes a metadata object of its own
   std::string what; // short rendering for messages
 };
 
@@ -1036,7 +1067,8 @@ std::string compare_all(std::vector<Expect> const& exps, std::string const& json
       r.label("message_ends_with_newline");
     }
     if (!msg_ok) return at + "message is \"" + esc(x.msg, 300) + "\", call-site formatting gives \"" + esc(e.msg, 300) + "\"";
-    if (x.fmt != e.tpl) return at + "metadata message_format is \"" + esc(x.fmt, 300) + "\"";
+    // (the runtime-metadata form reaches the sinks with a metadata object the backend made up: its format is not claimed)
+    if (!e.runtime && x.fmt != e.tpl) return at + "metadata message_format is \"" + esc(x.fmt, 300) + "\"";
     if (e.md && x.md != e.md) return at + "sink saw a different MacroMetadata object";
     if (e.named)
     {
@@ -1113,6 +1145,7 @@ std::string compare_all(std::vector<Expect> const& exps, std::string const& json
         if (obj[q].first == f.first)
         {
           found = true;
+          if (e.runtime && f.first == "message") break; // see above: the template of the made-up metadata is not claimed
           if (obj[q].second != f.second)
             return at + "member \"" + f.first + "\" is \"" + esc(obj[q].second, 200) + "\", expected \"" + esc(f.second, 200) + "\"";
           break;
@@ -1228,7 +1261,7 @@ void run_case(Choices& c, Report& r)
   std::vector<Expect> exps;
   std::vector<std::string> seen_order;      // template text per statement
   bool nontrivial_shape = false, reused_after_other = false;
-  bool any_escaped = false, any_spec = false, any_extra = false, any_zero = false, any_ten = false, any_logj = false;
+  bool any_escaped = false, any_spec = false, any_extra = false, any_zero = false, any_ten = false, any_logj = false, any_runtime = false;
   bool any_rewrite = false, any_no_string = false, any_polled_mid = false, any_batch = false;
   TplFeat tf;
   ValFlags vf;
@@ -1302,7 +1335,18 @@ void run_case(Choices& c, Report& r)
       std::vector<std::string> vfmt;
       for (size_t a = 0; a < arity; ++a) vfmt.push_back(a < s.nph ? "{" + s.specs[a] + "}" : std::string{"{}"});
       StmtOracle o;
+      // a fifth of the statements with named placeholders take the LOG_RUNTIME_METADATA form (positional ones are C12's)
+      // (only with exactly one argument per placeholder: the macro appends "{}" fields for file, line and function, so a
+      // surplus argument would be taken for the file name -- a limitation of the macro, not claimed by C19)
+      bool runtime_form = s.nph > 0 && arity == s.nph && rare(c, 5);
+      int const rt_level = runtime_form ? static_cast<int>(c.pick(9)) : 0;
+      if (runtime_form) { g_rt.on = true; g_rt.md = &*s.md_rt; g_rt.level = kLevels[rt_level]; }
       entry.fn(g_lg[e.logger], &*s.md, s.twin, vfmt, vals, o);
+      g_rt.on = false;
+      if (o.rt_vetoed) { runtime_form = false; r.count(std::string{"excluded."} + kClsF5); }
+      // file and function travel as C strings: a statement in this form always has string arguments, so the configured
+      // sanitisation of non-printable characters applies to it
+      if (runtime_form) any_string = true;
       if (!o.harness_error.empty()) { harness_error = o.harness_error + " twin=\"" + esc(s.twin) + "\""; break; }
       if (!o.enqueued) { harness_error = "harness: log_statement returned false on an unbounded blocking queue"; break; }
 
@@ -1317,6 +1361,16 @@ void run_case(Choices& c, Report& r)
       e.level_desc = kLevelDesc[s.level];
       e.md = &*s.md;
       e.what = "(template \"" + esc(s.tpl, 120) + "\")";
+      if (runtime_form)
+      {
+        e.runtime = true;
+        e.md = nullptr;
+        e.file_name = kRtFile;
+        e.line = std::to_string(kRtLine);
+        e.level_desc = kLevelDesc[rt_level];
+        e.what = "(LOG_RUNTIME_METADATA form, template \"" + esc(s.tpl, 120) + "\")";
+        any_runtime = true;
+      }
 
       if (s.has_escaped) any_escaped = true;
       if (s.has_spec) any_spec = true;
@@ -1392,6 +1446,7 @@ void run_case(Choices& c, Report& r)
   if (any_ten) r.label("ten_placeholders");
   if (any_json_parsed) r.label("json_checked");
   if (any_logj) r.label("logj_macro_call_site");
+  if (any_runtime) r.label("runtime_metadata_form_with_named_args");
   if (any_rewrite) r.label("metadata_storage_rewritten_after_drain");
   if (any_no_string) r.label("no_string_argument_sanitiser_off");
   if (any_polled_mid) r.label("drained_between_statements");
